@@ -63,7 +63,7 @@ EXHAUSTIVE = {"quick": False, "thorough": False}
 
 NET_RETRY = 3
 EXC_TAGS = {"BrokenPipeError": 0, "ValueError": 1, "ModExc": 2, "OSError": 3, "Loc": 4, "KeyError": 5,
-            "FileNotFoundError": 3, "TypeError": 6}
+            "FileNotFoundError": 3, "TypeError": 6, "Dyn": 7}
 UNSENDABLE_TAGS = {4}      # emptied by code_params() when PickleSafeException survives a local exception class
 _PARAMS = {}
 
@@ -143,7 +143,7 @@ def make_case(rng, kind, tier="quick"):
         if rng.random() < 0.1:
             k = str(rng.choice(ids)) if ids else None
             if k is not None and beh[k]["k"] == "err":
-                beh[k]["e"] = 4
+                beh[k]["e"] = rng.choice([4, 7])
         if rng.random() < 0.3:
             case["api"] = "run"
             case["strict"] = rng.random() < 0.4
@@ -183,7 +183,7 @@ def make_case(rng, kind, tier="quick"):
         if rng.random() < 0.03 and tol:
             k = [k for k in beh if beh[k]["k"] == "err"]
             if k:
-                beh[rng.choice(k)]["e"] = 4
+                beh[rng.choice(k)]["e"] = rng.choice([4, 7])
         if rng.random() < 0.04 and n >= 2:
             k = str(rng.choice(ids))
             if beh[k]["k"] == "val":
@@ -360,6 +360,11 @@ def _task(device_id, spec):
     if e == 5:
         raise KeyError(i)
 
+    if e == 7:
+        # a class made at run time (a plugin's error registry): an ordinary name, but not importable - pickling the
+        # class by reference fails although "<locals>" is not in its qualified name
+        raise type("Dyn", (Exception,), {"__module__": __name__})("dynamic class %d" % i)
+
     class Loc(Exception):
         pass
     raise Loc("local class %d" % i)
@@ -375,6 +380,8 @@ def canon_result(case, tr):
             name = "BrokenPipeError"
         if name == "Exception" and "Loc: local class" in getattr(tr.exc, "formatted_output", ""):
             name = "Loc"          # a repaired PickleSafeException stands in for the unpicklable class
+        if name == "Exception" and "Dyn: dynamic class" in getattr(tr.exc, "formatted_output", ""):
+            name = "Dyn"
         tag = EXC_TAGS.get(name, -1)
         dev = getattr(tr.exc, "device_id", None)
         if tag < 0 or (dev is not None and model_id(case, dev) != i) or tr.result is not None:
